@@ -77,7 +77,7 @@ impl Hist {
     }
 
     pub fn step(&mut self, rng: &mut Rng, docs_cfg: &Cfg) {
-        let choice = rng.below(24);
+        let choice = rng.below(40);
         if choice == 0 || self.pick_live(rng).is_none() {
             // a new parsed document / built value
             let v: Value = match rng.below(4) {
@@ -130,6 +130,8 @@ impl Hist {
                 let xd = sorted_dump(&x);
                 let key = rng.pick(&["a", "b", "new", "", "k\u{e9}"]).to_string();
                 let kh = hex(key.as_bytes());
+                let key2 = rng.pick(&["a", "c", "b2"]).to_string();
+                let more = (rng.chance(1, 2), self.donor(rng));
                 let root = self.live[h].as_mut().unwrap();
                 let Some(slot) = root.pointer_mut(ptr.iter()) else {
                     self.record(format!("O{h}:{pa}:len"), "reject".into());
@@ -237,11 +239,177 @@ impl Hist {
                         *slot = x;
                         (format!("set={xd}"), "u".into())
                     }
-                    _ => {
+                    22 | 23 => {
                         let v = slot.take();
                         let d = sorted_dump(&v);
                         taken = Some(v);
                         ("take".into(), d)
+                    }
+                    // ---- second round: the rest of the public mutation API
+                    24 => match slot.as_array_mut() {
+                        Some(a) => {
+                            let mut other = sonic_rs::Array::new();
+                            other.push(x);
+                            if more.0 {
+                                other.push(more.1.clone());
+                            }
+                            let od = sorted_dump(&other.clone().into_value());
+                            a.append(&mut other);
+                            (format!("aappend={od}"), if other.is_empty() { "u".into() } else { "other-not-emptied".into() })
+                        }
+                        None => ("aappend=[]".into(), "reject".into()),
+                    },
+                    25 | 26 => match slot.as_object_mut() {
+                        Some(o) => {
+                            let mut other = sonic_rs::Object::new();
+                            other.insert(&key, x);
+                            other.insert(&key2, more.1.clone());
+                            if more.0 {
+                                other.insert(&"zz", 7u64);
+                            }
+                            let od = sorted_dump(&other.clone().into_value());
+                            o.append(&mut other);
+                            (format!("oappend={od}"), if other.is_empty() { "u".into() } else { "other-not-emptied".into() })
+                        }
+                        None => ("oappend={}".into(), "reject".into()),
+                    },
+                    27 => {
+                        if let Some(a) = slot.as_array_mut() {
+                            if more.0 {
+                                a.retain(|v| !v.is_null());
+                            } else {
+                                a.retain_mut(|v| !v.is_null());
+                            }
+                            ("retain".into(), "u".into())
+                        } else if let Some(o) = slot.as_object_mut() {
+                            o.retain(|_, v| !v.is_null());
+                            ("retain".into(), "u".into())
+                        } else {
+                            ("retain".into(), "reject".into())
+                        }
+                    }
+                    28 => match slot.as_array_mut() {
+                        Some(a) => {
+                            let n = rng.below(a.len() + 1);
+                            let tail = a.split_off(n);
+                            (format!("splitoff={n}"), sorted_dump(&tail.into_value()))
+                        }
+                        None => ("splitoff=0".into(), "reject".into()),
+                    },
+                    29 => match slot.as_array_mut() {
+                        Some(a) => {
+                            let n = rng.below(a.len() + 3);
+                            if more.0 {
+                                a.resize(n, x);
+                            } else {
+                                let xc = x.clone();
+                                a.resize_with(n, || xc.clone());
+                            }
+                            (format!("resize={n}={xd}"), "u".into())
+                        }
+                        None => (format!("resize=0={xd}"), "reject".into()),
+                    },
+                    30 => match slot.as_array_mut() {
+                        Some(a) => {
+                            let b = rng.below(a.len() + 1);
+                            let lo = rng.below(b + 1);
+                            a.extend_from_within(lo..b);
+                            (format!("extwithin={lo}={b}"), "u".into())
+                        }
+                        None => ("extwithin=0=0".into(), "reject".into()),
+                    },
+                    31 => match slot.as_array_mut() {
+                        Some(a) => {
+                            let b = rng.below(a.len() + 1);
+                            let lo = rng.below(b + 1);
+                            let drained: Vec<Value> = a.drain(lo..b).collect();
+                            (format!("drain={lo}={b}"), sorted_dump(&Value::from(drained)))
+                        }
+                        None => ("drain=0=0".into(), "reject".into()),
+                    },
+                    32 => match slot.as_array_mut() {
+                        Some(a) if !a.is_empty() => {
+                            let (i, j) = (rng.below(a.len()), rng.below(a.len()));
+                            a.as_mut_slice().swap(i, j);
+                            (format!("swap={i}={j}"), "u".into())
+                        }
+                        Some(_) => ("len".into(), "#0".into()),
+                        None => ("swap=0=0".into(), "reject".into()),
+                    },
+                    33 => match slot.as_object_mut() {
+                        Some(o) => {
+                            let r = match o.remove_entry(&key) {
+                                Some((k, v)) => {
+                                    if k == key {
+                                        sorted_dump(&v)
+                                    } else {
+                                        format!("wrong-key:{k}")
+                                    }
+                                }
+                                None => "none".into(),
+                            };
+                            (format!("rementry={kh}"), r)
+                        }
+                        None => (format!("rementry={kh}"), "reject".into()),
+                    },
+                    34 | 35 => match slot.as_object_mut() {
+                        Some(o) => {
+                            let y = more.1.clone();
+                            let yd = sorted_dump(&y);
+                            let xc = x.clone();
+                            let r = sorted_dump(o.entry(&key).and_modify(|v| *v = xc).or_insert(y));
+                            (format!("emod={kh}={xd}={yd}"), r)
+                        }
+                        None => (format!("emod={kh}={xd}=n"), "reject".into()),
+                    },
+                    36 => match slot.as_object_mut() {
+                        Some(o) => {
+                            let r = if more.0 { sorted_dump(o.entry(&key).or_default()) } else { sorted_dump(o.entry(&key).or_insert_with(Value::new)) };
+                            (format!("edef={kh}"), r)
+                        }
+                        None => (format!("edef={kh}"), "reject".into()),
+                    },
+                    37 => match slot.as_object_mut() {
+                        Some(o) => {
+                            let r = match o.entry(&key) {
+                                sonic_rs::value::object::Entry::Occupied(e) => sorted_dump(&e.remove()),
+                                sonic_rs::value::object::Entry::Vacant(_) => "none".into(),
+                            };
+                            (format!("erem={kh}"), r)
+                        }
+                        None => (format!("erem={kh}"), "reject".into()),
+                    },
+                    38 => match slot.as_object_mut() {
+                        Some(o) => {
+                            let r = match o.entry(&key) {
+                                sonic_rs::value::object::Entry::Occupied(mut e) => sorted_dump(&e.insert(x)),
+                                sonic_rs::value::object::Entry::Vacant(e) => {
+                                    e.insert(x);
+                                    "none".into()
+                                }
+                            };
+                            (format!("eins={kh}={xd}"), r)
+                        }
+                        None => (format!("eins={kh}={xd}"), "reject".into()),
+                    },
+                    _ => {
+                        if let Some(a) = slot.as_array_mut() {
+                            for v in a.iter_mut() {
+                                if v.is_null() {
+                                    *v = x.clone();
+                                }
+                            }
+                            (format!("fillnulls={xd}"), "u".into())
+                        } else if let Some(o) = slot.as_object_mut() {
+                            for (_, v) in o.iter_mut() {
+                                if v.is_null() {
+                                    *v = x.clone();
+                                }
+                            }
+                            (format!("fillnulls={xd}"), "u".into())
+                        } else {
+                            (format!("fillnulls={xd}"), "reject".into())
+                        }
                     }
                 };
                 if let Some(v) = taken {
@@ -322,6 +490,74 @@ pub fn run_c16(out: &mut Out, tier: &str, seed: u64) {
         let doc = gen::render_doc(&g, &mut rng, &cfg);
         out.count("independent-lifetime docs");
         crate::p_dom::dom_drivers(out, &doc, false);
+    }
+    // values delivered by one deserializer / stream stay intact when a LATER value of the same
+    // deserializer fails to parse, is dropped half-built, or the deserializer itself is dropped:
+    // k good documents, then a malformed one, then (sometimes) more good ones; every delivered value,
+    // a clone and an extracted child are read after the failure and after the deserializer is gone
+    for round in 0..(n / 5) {
+        let k = 1 + rng.below(4);
+        let mut docs: Vec<Vec<u8>> = Vec::new();
+        for _ in 0..k {
+            let g = gen::gen_doc(&mut rng, &cfg);
+            docs.push(gen::render_doc(&g, &mut rng, &cfg));
+        }
+        let bad: &[u8] = *rng.pick(&[&b"]"[..], b"{\"a\":", b"[1,", b"\"abc", b"{\"k\":[1,2,{\"x\":tru}]}", b"[[[[[[1,2,3],4],5],6],7]"]);
+        let tail = { let g = gen::gen_doc(&mut rng, &cfg); gen::render_doc(&g, &mut rng, &cfg) };
+        let mut text: Vec<u8> = b"0 ".to_vec();
+        for d in &docs {
+            text.extend_from_slice(d);
+            text.push(b' ');
+        }
+        text.extend_from_slice(bad);
+        text.push(b' ');
+        text.extend_from_slice(&tail);
+        let expected: Vec<String> = docs.iter().map(|d| sonic_rs::from_slice::<Value>(d).map(|v| sorted_dump(&v)).unwrap_or_else(|_| "unparsable".into())).collect();
+        let via_stream = round % 2 == 0;
+        let r = guarded(|| {
+            let mut kept: Vec<Value> = Vec::new();
+            let mut after: Vec<String> = Vec::new();
+            if via_stream {
+                let mut st = sonic_rs::Deserializer::from_slice(&text).into_stream::<Value>();
+                let _ = st.next();
+                for _ in 0..k {
+                    match st.next() {
+                        Some(Ok(v)) => kept.push(v),
+                        _ => return "stream ended before the malformed document".to_string(),
+                    }
+                }
+                let failed = matches!(st.next(), Some(Err(_)));
+                after.push(format!("failed={failed}"));
+                drop(st);
+            } else {
+                let mut de = sonic_rs::Deserializer::from_slice(&text);
+                let _ = de.deserialize::<Value>();
+                for _ in 0..k {
+                    match de.deserialize::<Value>() {
+                        Ok(v) => kept.push(v),
+                        Err(_) => return "deserializer failed before the malformed document".to_string(),
+                    }
+                }
+                let failed = de.deserialize::<Value>().is_err();
+                after.push(format!("failed={failed}"));
+                // one more attempt after the failure, then the deserializer goes away
+                let _ = de.deserialize::<Value>();
+                drop(de);
+            }
+            // scribble over freshly freed memory
+            let junk: Vec<Vec<u8>> = (0..8).map(|i| vec![0xA5u8; 64 << i]).collect();
+            drop(junk);
+            let mut verdict = String::from("ok");
+            for (i, v) in kept.iter().enumerate() {
+                let c = v.clone();
+                if sorted_dump(v) != expected[i] || sorted_dump(&c) != expected[i] {
+                    verdict = format!("document {i} delivered before the failure reads differently after it");
+                }
+            }
+            verdict
+        });
+        out.count(if via_stream { "failure-after-delivery (stream)" } else { "failure-after-delivery (deserialize)" });
+        out.case("arcinv", &[&hex(&text)], &r.unwrap_or_else(|p| format!("panic:{p}")), true);
     }
     for _ in 0..n {
         let len = rng.range(3, 30);
